@@ -792,6 +792,17 @@ class _Progress:
         self.fns = fns
         self.tables = _tables(ctx)
         self.regexes = _regex_table(ctx)
+        # module-level constant containers of characters: NAME = frozenset("..") / set("..") / {"a", "b"} / "..."
+        self.consts = {}
+        for n in _tree(ctx).body:
+            if isinstance(n, ast.Assign) and len(n.targets) == 1 and isinstance(n.targets[0], ast.Name):
+                v = n.value
+                if isinstance(v, ast.Constant) and isinstance(v.value, str):
+                    self.consts[n.targets[0].id] = v.value
+                elif isinstance(v, ast.Call) and P.un(v.func) in ("frozenset", "set") and len(v.args) == 1 and isinstance(v.args[0], ast.Constant) and isinstance(v.args[0].value, str):
+                    self.consts[n.targets[0].id] = frozenset(v.args[0].value)
+                elif isinstance(v, (ast.Set, ast.Tuple, ast.List)) and all(isinstance(e, ast.Constant) for e in v.elts):
+                    self.consts[n.targets[0].id] = frozenset(e.value for e in v.elts)
         self.cfgs = {n: CFG(f) for n, f in fns.items()}
         self.aliases = {n: _reader_aliases(f) for n, f in fns.items()}
         self.peeked = {
@@ -994,6 +1005,8 @@ class _EofMode:
                         res = "" in [x.value for x in rnode.elts]
                     elif P.un(rnode) in self.tables:
                         res = "" in self.tables[P.un(rnode)]
+                    elif isinstance(rnode, ast.Name) and rnode.id in self.pr.consts:
+                        res = "" in self.pr.consts[rnode.id]
                 if res is None:
                     return None
                 return res if isinstance(op, ast.In) else not res
